@@ -356,10 +356,10 @@ def run(ctx) -> Report:
     check_dag_sharing(ctx, rep, cmp_expr)
     check_dag_sharing(ctx, rep, cmp_expr, hashed=True)
     ip = make_interp(ctx, [])
-    table = ip.module_globals[SORTING].get("_terminal_cmps")
-    if not isinstance(table, dict) or not table:
-        raise AnalysisError("ufl.sorting._terminal_cmps not found as a module-level table")
-    rep.info("C29-table", cmp_expr, f"_terminal_cmps keys from source: {sorted(table)}")
+    # informative only: whatever module-level tables the module dispatches through were evaluated from its source
+    for tname, table in ip.module_globals.get(SORTING, {}).items():
+        if isinstance(table, dict) and table:
+            rep.info("C29-table", cmp_expr, f"{tname} keys from source: {sorted(map(str, table))}")
     n = 0
     for parts in (False, True):
         n = max(n, check_order(ctx, rep, cmp_expr, parts))
